@@ -4,7 +4,7 @@ CONSTANTS
   OpSet = "small"
   GenLen = 4
   GenOps = "small"
-  NRand = 1500
+  NRand = 3000
   ReqFull = FALSE
 INIT GenInit
 NEXT GenNext
